@@ -144,7 +144,7 @@ def main():
     from adcgen import GroundState, Operators, IntermediateStates
     isr0 = IntermediateStates(GroundState(Operators("mp")), "pp")
     for r in series.check(lambda n, mo: isr0.expand_S_taylor(n, mo), half=True,
-                          orders=range(0, 9 if quick else 13), timeout_ms=TIMEOUT, seed=seed()):
+                          thorough=not quick, timeout_ms=TIMEOUT, seed=seed()):
         api = f"IntermediateStates.expand_S_taylor({r['order']}, min_order={r['min_order']})"
         run.add_outcome("series/s_root", r, sample={"api": api, "expansion": r["out"][:160], "verdict": r["status"]}
                         if r["status"] == "equal" and r["order"] >= 4 else None,
